@@ -140,6 +140,7 @@ class Queue(mp_Queue):
             wacquire = None
 
         while True:
+            sending = False
             try:
                 nacquire()
                 try:
@@ -163,6 +164,7 @@ class Queue(mp_Queue):
 
                     # serialize the data before acquiring the lock
                     obj_ = dumps(obj, reducers=reducers)
+                    sending = True
                     if wacquire is None:
                         send_bytes(obj_)
                     else:
@@ -171,10 +173,18 @@ class Queue(mp_Queue):
                             send_bytes(obj_)
                         finally:
                             wrelease()
+                    sending = False
                     # Remove references early to avoid leaking memory
                     del obj, obj_
             except BaseException as e:
-                if ignore_epipe and getattr(e, "errno", 0) == errno.EPIPE:
+                # Only a broken pipe of the send means that the readers are
+                # gone: an error with the same errno raised while pickling
+                # the object is reported like any other.
+                if (
+                    ignore_epipe
+                    and sending
+                    and getattr(e, "errno", 0) == errno.EPIPE
+                ):
                     return
                 # Since this runs in a daemon thread the resources it uses
                 # may be become unusable while the process is cleaning up.
